@@ -11,7 +11,9 @@ PROPERTY = "C13"
 NEED_STR_CONSTANTS = True
 FUNCTIONS = ["paramiko.proxy.ProxyCommand.recv", "paramiko.transport.Transport.run", "paramiko.transport.Transport.close",
              "paramiko.transport.Transport.stop_thread", "paramiko.transport.Transport.accept", "paramiko.channel.Channel._unlink",
-             "paramiko.channel.Channel._set_closed", "paramiko.auth_handler.AuthHandler.abort", "paramiko.packet.Packetizer.read_all"]
+             "paramiko.channel.Channel._set_closed", "paramiko.auth_handler.AuthHandler.abort", "paramiko.packet.Packetizer.read_all", "paramiko.channel.Channel._wait_for_send_window",
+             "paramiko.channel.Channel._send", "paramiko.channel.Channel.sendall", "paramiko.channel.Channel.close",
+             "paramiko.channel.Channel._handle_close"]
 STUBS = ["ProxyCommand: select() reports readable or not and os.read() returns 0..n bytes (0 = the process closed its stdout) by solver "
          "choice, time.time() is a symbolic non-decreasing clock; the subprocess is a stand-in object",
          "run loop: scripted packetizer, null key exchange; the condition variables and events that untimed blocking calls wait on are "
@@ -21,7 +23,9 @@ ASSUMPTIONS = ["an untimed waiter can only return if the object it waits on is n
                "checked by reading, not modelled",
                "ways the connection ends: end of the scripted input (socket EOF), peer DISCONNECT, a protocol error inside a handler, local "
                "close() from another thread while the loop is waiting for input",
-               "statement-level interleavings of close() with a caller entering a wait are not explored"]
+               "statement-level interleavings of close() with a caller entering a wait are not explored",
+               "blocked senders: the connection ends exactly while the sender is inside out_buffer_cv.wait() (the lock is released "
+               "there, so this is the only point at which another thread can end the channel while a sender holds its place)"]
 EXPLANATION = "How the connection ends, the role, and every select/read/clock result of the proxy are solver choices."
 
 
@@ -161,5 +165,80 @@ def wakeup_case(server):
                 {"ways": WAYS, "role": "server" if server else "client"})
 
 
+class _EndCv:
+    """stands in for Channel.out_buffer_cv: the first wait() is the moment the connection ends (the lock is released, the
+    real shutdown path runs, the lock is taken again - what Condition.wait does around a notify_all); a caller that goes
+    back to waiting after that would never be woken again"""
+
+    def __init__(self, lock, on_first):
+        self.lock, self.on_first, self.n = lock, on_first, 0
+
+    def wait(self, timeout=None):
+        self.n += 1
+        if self.n > 1:
+            raise NonTermination("waits again although the connection has ended: nothing will ever notify it")
+        self.lock.release()
+        try:
+            self.on_first()
+        finally:
+            self.lock.acquire()
+
+    def notify(self):
+        pass
+
+    notify_all = notify
+
+
+ENDS = ["transport-lost(Channel._unlink, as run() and Transport.close() do)", "peer-CLOSE(Channel._handle_close)",
+        "local-close()-from-another-thread"]
+
+
+def blocked_sender_case():
+    def fn(ctx):
+        import types
+        from paramiko.channel import Channel
+        from paramiko.message import Message
+        api = ctx.choice("blocked-call", ["send", "send_stderr", "sendall", "sendall_stderr"])
+        timeout = ctx.choice("timeout", [None, 5.0])
+        end = ctx.choice("connection-ends-by", ENDS)
+        n = ctx.choice("len(data)", [1, 3])
+        sent = []
+        tr = types.SimpleNamespace(active=True, get_log_channel=lambda: "paramiko.transport", _send_user_message=sent.append,
+                                   _unlink_channel=lambda cid: None, _sanitize_packet_size=lambda v: v)
+        ch = Channel(0)
+        ch._set_transport(tr)
+        ch._set_window(2 ** 21, 2 ** 15)
+        ch._set_remote_channel(0, 0, 2 ** 15)          # the peer's window is used up: a sender has to wait
+        ch.settimeout(timeout)
+
+        def ends():
+            tr.active = False
+            if end.startswith("transport-lost"):
+                ch._unlink()
+            elif end.startswith("peer-CLOSE"):
+                ch._handle_close(Message())
+            else:
+                ch.close()
+        ch.out_buffer_cv = _EndCv(ch.lock, ends)
+        outcome = None
+        try:
+            r = getattr(ch, api)(b"x" * n)
+            outcome = ("returned", r)
+        except NonTermination:
+            outcome = ("blocked-again", None)
+        except Exception as e:                          # socket.error("Socket is closed"), socket.timeout: both are answers
+            outcome = ("raised", type(e).__name__)
+        ctx.prove(ch.out_buffer_cv.n >= 1, "the-call-was-blocked-when-the-connection-ended")
+        ctx.prove(outcome[0] != "blocked-again", "a-sender-blocked-on-a-full-window-returns-or-raises-once-the-connection-ends")
+        if api.startswith("sendall"):
+            ctx.prove(outcome[0] == "raised", "sendall-does-not-report-success-for-undelivered-data")
+        ctx.prove(not [m for m in sent if m.asbytes()[:1] in (b"\x5e", b"\x5f")], "no-data-leaves-after-the-end")
+    return Case("blocked-sender-is-released", fn,
+                ["the-call-was-blocked-when-the-connection-ended",
+                 "a-sender-blocked-on-a-full-window-returns-or-raises-once-the-connection-ends"],
+                {"calls": ["send", "send_stderr", "sendall", "sendall_stderr"], "timeout": [None, 5.0], "ends": ENDS,
+                 "peer window": 0, "data": "1 or 3 bytes"})
+
+
 def cases(tier):
-    return [proxy_case(), wakeup_case(True), wakeup_case(False)]
+    return [proxy_case(), wakeup_case(True), wakeup_case(False), blocked_sender_case()]
